@@ -973,7 +973,7 @@ func (tc *typechecker) binaryOp(expr1 ast.Expression, op ast.OperatorType, expr2
 		}
 
 		typ := t1.Type
-		if evalToBoolOperators[op] {
+		if evalToBoolOperators[op] && op != ast.OperatorAnd && op != ast.OperatorOr {
 			typ = boolType
 		} else if !isShift && t1.Untyped() && t1.Type.Kind() < t2.Type.Kind() {
 			typ = t2.Type
